@@ -621,6 +621,7 @@ func ruleG2(r *Run) {
 	r.Check(reset, "success resets the failure count", fd.Pos(), "StoreUint64(&failCount, 0) under err == nil", "a successful forwarded call no longer resets failCount to 0: non-consecutive failures accumulate and open the breaker")
 	// failure accounting: Add(&failCount,1) and Store(&lastFailTime, now) under err != nil in the deferred literal
 	acct := 0
+	var posAdd, posStamp token.Pos
 	ast.Inspect(fd.Body, func(n ast.Node) bool {
 		d, ok := n.(*ast.DeferStmt)
 		if !ok {
@@ -647,7 +648,11 @@ func ruleG2(r *Run) {
 			if fv.Name() == "failCount" && strings.HasPrefix(f.Name(), "Add") {
 				if c, ok := intConst(info, call.Args[1]); ok && c == 1 {
 					acct++
+					posAdd = call.Pos()
 				}
+			}
+			if fv.Name() == "lastFailTime" && strings.HasPrefix(f.Name(), "Store") {
+				posStamp = call.Pos()
 			}
 			if fv.Name() == "lastFailTime" && strings.HasPrefix(f.Name(), "Store") {
 				// the time of the FAILURE: a fresh time.Now() taken in the deferred section, not a
@@ -669,6 +674,9 @@ func ruleG2(r *Run) {
 		})
 		return true
 	})
+	if posAdd.IsValid() && posStamp.IsValid() && p.Fset.File(posAdd) == p.Fset.File(posStamp) {
+		r.Check(posStamp < posAdd, "the failure time is stored before the failure is counted", posAdd, "Store(lastFailTime) precedes Add(failCount)", "the failure count is raised before the time of the failure is stored: a concurrent call that already sees the count above the threshold still reads the time of an EARLIER failure, finds the recovery time elapsed, resets the count to threshold/2 and is forwarded - the failure that should have opened the breaker is lost")
+	}
 	r.Check(acct == 2, "failure accounting in the deferred section", fd.Pos(), "failCount+1 and lastFailTime=now", "a failed call no longer adds exactly 1 to failCount and records lastFailTime = time.Now() (taken when the failure is observed, in the deferred section): slow failures are dated at their start and the breaker re-closes at once")
 	// InvokeHandler: mock only when err == ErrBreaker
 	ifd, _ := p.DeclOf("rpc/plugins/circuitbreaker", "CircuitBreaker.InvokeHandler")
